@@ -109,7 +109,7 @@ CLAIMS = {
             "and in exact dyadic overrides on the model of SvgBuilder::image: default frame origin = margin + (n-b)/2 on both axes "
             "with the image centred (C18_default_frame), explicit position = frame centre (C18_position), explicit size/gap: "
             "image = S, frame = S+2G or S+2G-1 (C18_size_gap). Correspondence: real attributes parsed to exact rationals, "
-            "exhaustive for defaults (40x3x17).",
+            "exhaustive for defaults (40x3x17); the ImageBuilder forwarding is tied by the frame bounding box measured in the rendered pixmap.",
             "Trusted: Lean kernel; translator; f64 rounding and float formatting modelled as exact dyadics (validated by byte-exact comparison on dyadic inputs).",
             "Lean 4 decide +kernel on regenerated frame table + symbolic dyadic arithmetic + exhaustive differential check of defaults"),
     "C14": ("proof",
